@@ -77,6 +77,8 @@ class _ApiSpec(FnSpec):
     # ---- models -----------------------------------------------------------------------
     def m_replace(self, eng, args, kwargs, node):
         o = args[0]
+        if o.cls == "EvalContext" and "requested_paths" in kwargs:
+            self._final_requested = kwargs["requested_paths"]
         n = ObjVal(o.cls, **o.fields)
         for k, v in kwargs.items():
             if k not in n.fields:
@@ -89,7 +91,11 @@ class _ApiSpec(FnSpec):
             return MapVal.empty(PATH, KEY, ordered=True)
         if isinstance(args[0], MapVal):
             return args[0].snapshot()
-        return Opaque("OrderedDict")
+        if isinstance(args[0], Opaque):
+            return Opaque("OrderedDict")
+        from .store_memory import m_OrderedDict_from_pairs
+
+        return m_OrderedDict_from_pairs(PATH, KEY).fn(eng, args, kwargs, node)
 
     def m_sorted(self, eng, args, kwargs, node):
         v = args[0]
@@ -441,6 +447,7 @@ class eval_new_ctx(_ApiSpec):
 
     # ---------------------------------------------------------------------------------------------------
     def make_globals(self, eng):
+        self._final_requested = None
         return {"_eval_ctx": None, "__store__": store_obj()}
 
     def make_args(self, eng):
@@ -508,9 +515,11 @@ class eval_new_ctx(_ApiSpec):
             out.append(("store_after_user_call", n_store == 1 and 0 <= iu < k.index("store_blob")))
             out.append(("stored_under_root_signature", KEY.lift(sb.data["key"]).term == sig))
             out.append(("stored_value_is_result", ANY.lift(sb.data["blob"]).term == res))
+        # the paths the evaluation works with (what nested keeps look their key up in, what gets committed) were
+        # checked for prefix overlaps, and none was found
         ov = getattr(ctx.eng.st, "ghost_overlap_arg", None)
-        if ov is not None:
-            out.append(("overlapping_paths_never_evaluated", z3.Implies(do_eval, z3.Not(OVERLAP(_keys_term(ov))))))
+        rp = getattr(self, "_final_requested", None)
+        out.append(("overlap_check_ran_on_the_requested_paths", ov is not None and rp is not None and rp.keys is not None and z3.Implies(do_eval, z3.And(z3.Not(OVERLAP(_keys_term(ov))), _keys_term(ov) == rp.keys))))
         if n_user:
             iu = k.index("user_call")
             out.append(("analysis_completes_before_user_code", all(not x.startswith("analysis:") and x != "export_graph" for x in k[iu:])))
